@@ -533,7 +533,12 @@ where
     }
 
     fn output_delay(&self) -> usize {
-        (self.interpolator.len() as f64 * self.resample_ratio / 2.0) as usize
+        // The filter is centred on the evaluated position (the history kept in the internal
+        // buffer makes that possible from the first frame), so it adds no delay to the stream.
+        // The first output frame is evaluated (1/ratio - 1 + 1/oversampling_factor) input
+        // frames after the first input frame.
+        let delay = self.resample_ratio * (1.0 - 1.0 / self.interpolator.nbr_sincs() as f64) - 1.0;
+        delay.max(0.0).round() as usize
     }
 
     fn nbr_channels(&self) -> usize {
@@ -901,7 +906,12 @@ where
     }
 
     fn output_delay(&self) -> usize {
-        (self.interpolator.len() as f64 * self.resample_ratio / 2.0) as usize
+        // The filter is centred on the evaluated position (the history kept in the internal
+        // buffer makes that possible from the first frame), so it adds no delay to the stream.
+        // The first output frame is evaluated (1/ratio - 1 + 1/oversampling_factor) input
+        // frames after the first input frame.
+        let delay = self.resample_ratio * (1.0 - 1.0 / self.interpolator.nbr_sincs() as f64) - 1.0;
+        delay.max(0.0).round() as usize
     }
 
     fn set_resample_ratio(&mut self, new_ratio: f64, ramp: bool) -> ResampleResult<()> {
